@@ -13,6 +13,7 @@ import random
 
 from mc import lib, engine
 
+CASE_TIMEOUT_S = 300      # wall-clock horizon per state (states of this check bundle many sub-states; generous for loaded machines)
 PROPERTY = 'C08'
 RULE = ('operation-sequence space: every history of length 1 and every ordered pair (quick) / additionally every ordered '
         'triple whose first two calls are drawn from the 28 argument-/state-touching labels (thorough) over 131 call labels x 3 '
